@@ -85,3 +85,96 @@ def classify_c12(line):
 
 def classify_c09(line):
     return None
+
+
+# ---- JSON layer ----
+
+def split_any(line):
+    body, spec = line.split('||')
+    lhs, impl = body.split('|')
+    t = lhs.split()
+    return int(t[2]), list(map(int, t[3:])), list(map(int, impl.split())), [int(x) for x in spec.replace('spec=', '').split()]
+
+def dec_doc(a, i):
+    """decode the document encoding of harness/json.go encDoc -> python value with raw keys; returns (value, next index)"""
+    k = a[i]
+    if k == 0: return None, i + 1
+    if k == 1: return True, i + 1
+    if k == 2: return False, i + 1
+    if k == 3:
+        n = a[i + 3]; raw = bytes(a[i + 4:i + 4 + n]).decode('latin1')
+        return ('num', a[i + 1], a[i + 2], raw), i + 4 + n
+    if k == 4:
+        n = a[i + 1]; j = i + 2 + n; m = a[j]
+        return ('str', bytes(a[j + 1:j + 1 + m]).decode('latin1')), j + 1 + m
+    if k == 5:
+        n = a[i + 1]; j = i + 2; out = []
+        for _ in range(n):
+            v, j = dec_doc(a, j); out.append(v)
+        return out, j
+    n = a[i + 1]; j = i + 2; ms = []
+    for _ in range(n):
+        nr = a[j]; j += 1 + nr
+        nd = a[j]; key = bytes(a[j + 1:j + 1 + nd]).decode('latin1'); j += 1 + nd
+        v, j = dec_doc(a, j); ms.append((key, v))
+    return ('obj', ms), j
+
+def last(ms, name):
+    r = None
+    for k, v in ms:
+        if k == name: r = v
+    return r
+
+def seq_mixed(positions, state):
+    """positions of one line / of the rings of one polygon; state = [seen_first, first_is_2d]"""
+    for p in positions:
+        if not isinstance(p, list): return False
+        n = min(len(p), 4)
+        if not state[0]:
+            state[0] = True; state[1] = (n == 2)
+        elif state[1] and n > 2:
+            return True
+    return False
+
+def doc_mixed(v):
+    if not (isinstance(v, tuple) and v[0] == 'obj'): return False
+    ms = v[1]; t = last(ms, 'type')
+    if not (isinstance(t, tuple) and t[0] == 'str'): return False
+    t = t[1]; c = last(ms, 'coordinates')
+    try:
+        if t == 'LineString': return seq_mixed(c, [False, False])
+        if t == 'MultiLineString': return any(seq_mixed(l, [False, False]) for l in c)
+        if t == 'Polygon':
+            st = [False, False]; return any(seq_mixed(r, st) for r in c)
+        if t == 'MultiPolygon':
+            for p in c:
+                st = [False, False]
+                if any(seq_mixed(r, st) for r in p): return True
+            return False
+        if t == 'Feature': return doc_mixed(last(ms, 'geometry'))
+        if t == 'GeometryCollection': return any(doc_mixed(g) for g in last(ms, 'geometries'))
+        if t == 'FeatureCollection': return any(doc_mixed(g) for g in last(ms, 'features'))
+    except TypeError:
+        return False
+    return False
+
+def classify_c07(line):
+    """a well-formed document rejected with 'invalid coordinates' because a later position of a
+    line string / polygon has more ordinates than its first position (pinned by TestIssue714)"""
+    try:
+        tag, args, impl, spec = split_any(line)
+        if tag != 70 or impl != [4] or not spec or spec[0] != 0: return None
+        doc, _ = dec_doc(args, 3)
+        return 'parse.mixed-dimensions.rejected' if doc_mixed(doc) else None
+    except Exception:
+        return None
+
+def classify_c06(line):
+    """a Circle feature is rewritten in a fixed form (flag 7 = 2); every other flag must hold"""
+    try:
+        tag, args, impl, spec = split_any(line)
+        if tag != 73 or len(impl) < 8 or impl[0] != 0: return None
+        if impl[1:4] != [1, 1, 1] or impl[7] != 2: return None
+        return 'circle.feature.rewritten'
+    except Exception:
+        return None
